@@ -198,8 +198,34 @@ class Kwargs(Harness):
         return parity(L, text, KWARGS[self.kwargs], newcls=not self.kwargs.startswith("parser"))
 
 
+class Values(Harness):
+    """names of one to four characters (mixed letter case, also differing only in case) with keyword values in
+    every letter case, sequences, sets and quantities, at the top level and inside blocks: same items from both
+    loaders"""
+    prop = "C19"
+    functions = FUNCS
+    must_reach = ("parity",)
+    alphabet = "ascii"
+    bounds = ("a fixed label with names of 1-4 characters (ID, Id, id, K, abcd, a name repeated three times, a block named "
+              "like a parameter) whose values are NULL / TRUE / FALSE in EVERY letter-case spelling (symbolic), "
+              "sequences, a set, quantities and a date")
+
+    def inputs(self, ctx):
+        def cased(word, h):
+            return SymStr([ctx.fresh_char("%s%d" % (h, i), ((ord(ch), ord(ch)), (ord(ch.lower()), ord(ch.lower()))))
+                           for i, ch in enumerate(word)])
+        return {"n": cased("NULL", "n"), "t": cased("TRUE", "t"), "f": cased("FALSE", "f")}
+
+    def prop_fn(self, L, inp):
+        n, t, f = inp["n"], inp["t"], inp["f"]
+        text = ("ID = " + n + "\nId = 1\nid = " + t + "\nK = " + n + "\nabcd = " + f + "\nK = (" + n + ", 1, " + t + ")\n"
+                "GROUP = ID\n ID = " + n + "\n ab = {1, 2}\n OBJECT = K\n  ab = " + n + "\n  q = 5 <m>\n END_OBJECT\n"
+                " d = 2001-01-01\nEND_GROUP\nK = " + f + "\nab = (1 <m>, 2.5 <s>)\nEND\n")
+        return parity(L, text, {})
+
+
 def obligations(tier):
-    obs = []
+    obs = [Values()]
     for t in c08.TEMPLATES:
         obs.append(GapsNew(template=t, dialect="Omni"))
     for k in KWARGS:
